@@ -103,7 +103,7 @@ RangeVals(r, V) ==
     [] r.rk = "odd"  -> {v \in V : v % 2 = 1}
     [] r.rk = "even" -> {v \in V : v % 2 = 0}
     [] r.rk = "cnt"  -> LET w == Cardinality(V) IN
-                          IF w = 0 \/ r.b = 0 THEN {} ELSE IF r.b >= w THEN V ELSE {(r.a + j) % w : j \in 0..(r.b - 1)}
+                          IF w = 0 \/ r.b = 0 THEN {} ELSE IF r.b >= w THEN V ELSE {(r.a + j) % w : j \in 0..(r.b - 1)} \cap V
 \* "x:y enumerates y objects starting from index x (wrapping around the end of the index range if needed)":
 \* determined when x is a valid index and the valid indexes are 0..w-1
 CntDet(r, V) == r.rk = "cnt" => (V = {} \/ (V = 0..(Cardinality(V) - 1) /\ r.a \in V))
@@ -158,8 +158,13 @@ LocVal(t, st, loc) ==
     [] loc.k = "raw" ->
          LET f == IF st.cif # "" THEN st.cif ELSE loc.f
              p == BS!Parse(f, loc.s, FALSE)
-             \* without --cif the tool guesses the format: determined when every format that accepts the string agrees
-             unamb == st.cif # "" \/ \A g \in BS!Fmts : LET q == BS!Parse(g, loc.s, FALSE) IN q.ok => VSame(q.v, p.v)
+             \* without --cif the tool "tries to guess" the format, and hwloc-calc(1) warns that digits and commas without
+             \* "0x" may be taken for a list or for a mask: determined for "0x..." strings on which the hwloc and taskset
+             \* readings agree, and for lists that contain a range
+             unamb == \/ st.cif # ""
+                      \/ /\ BS!StartsWith(loc.s, "0x") /\ f \in {"hwloc", "taskset"}
+                         /\ \A g \in {"hwloc", "taskset"} : LET q == BS!Parse(g, loc.s, FALSE) IN q.ok => VSame(q.v, p.v)
+                      \/ /\ f = "list" /\ \E i \in 1..Len(loc.s) : BS!Ch(loc.s, i) = "-"
          IN IF ~p.ok \/ ~unamb THEN OpenVal
             ELSE IF st.ni THEN [ok |-> TRUE, det |-> TRUE, cs |-> NsToCs(t, p.v), ns |-> p.v]
                  ELSE [ok |-> TRUE, det |-> TRUE, cs |-> p.v, ns |-> CsToNs(t, p.v)]
@@ -329,9 +334,12 @@ CalcRel(t, names, st, mode, ev, last) ==
   /\ NoCrash(ev)
   /\ IF mode.m = "badopt" THEN ev.rc # 0                        \* malformed options: non-zero exit status
      ELSE IF mode.m \in {"I", "N"} /\ ~LevelOfName(t, mode.tn).ok THEN ev.rc # 0   \* unknown / unavailable type
-     ELSE IF mode.m = "H" /\ \E k \in DOMAIN mode.tns : ~LevelOfName(t, mode.tns[k]).ok THEN ev.rc # 0
+     \* -H: "Only normal CPU-side object types should be used" (NUMA nodes are tolerated)
+     ELSE IF mode.m = "H" /\ \E k \in DOMAIN mode.tns : ~LevelOfName(t, mode.tns[k]).ok \/ LevelOfName(t, mode.tns[k]).d \in IODepths \cup {-8}
+          THEN ev.rc # 0
      ELSE IF st.n = 0 THEN TRUE                                  \* no location: the tool turns to its standard input
-     ELSE IF ev.rc # 0 THEN st.bad \/ mode.m \in {"largest", "fbL", "fbH"}        \* a failure needs a reason
+     \* a failure needs a reason: an ignored token, a set --largest cannot cover, a feedback of words that are no locations
+     ELSE IF ev.rc # 0 THEN st.bad \/ (mode.m = "largest" /\ ~VSub(st.cs, VR(t.tcs))) \/ mode.m \in {"fbL", "fbH"}
      ELSE IF ~st.det THEN TRUE
      ELSE CASE mode.m = "set" ->
                  IF mode.single /\ fin.no THEN TRUE
@@ -374,7 +382,7 @@ CalcRel(t, names, st, mode, ev, last) ==
             [] mode.m = "fbL" ->
                  LET ws == FbSplit(last.out, " ")
                      cand == [k \in DOMAIN ws |-> ResolveTok(t, lnames, ws[k], ~mode.po)]
-                 IN (last.m = "largest" /\ last.rc = 0 /\ ws # <<>> /\ VSub(st.cs, VR(t.tcs)) /\ \A k \in DOMAIN ws : Cardinality(cand[k]) = 1)
+                 IN (last.m = "largest" /\ last.rc = 0 /\ ws # <<>> /\ (st.lo \/ mode.po) /\ VSub(st.cs, VR(t.tcs)) /\ \A k \in DOMAIN ws : Cardinality(cand[k]) = 1)
                     => /\ OneLine(ev) /\ BS!OutOK("hwloc", ev.lines[1], st.cs)
             \* the -H words fed back into -I <last type> list the same objects as -I <last type> of the original set,
             \* when every such object has an ancestor in each level of the chain
@@ -384,7 +392,7 @@ CalcRel(t, names, st, mode, ev, last) ==
                      finals == {exp[k].p : k \in DOMAIN exp}
                      dl == ds[Len(ds)]
                      all == IObjs(t, dl, st.cs, st.ns, FALSE)
-                 IN (last.m = "H" /\ last.rc = 0 /\ ~last.po /\ HDet(t, last.tns) /\ mode.tn = last.tns[Len(last.tns)] /\ exp # <<>>)
+                 IN (last.m = "H" /\ last.rc = 0 /\ ~last.po /\ st.lo /\ HDet(t, last.tns) /\ mode.tn = last.tns[Len(last.tns)] /\ exp # <<>>)
                     => /\ OneLine(ev)
                        /\ SeqSet(WordsOf(ev.lines[1], ",")) = {BS!Dec(O(t, p).lidx) : p \in finals}
                        /\ (finals = SeqSet(all) /\ last.I.tn = mode.tn /\ ~last.I.po /\ ~last.I.oo /\ ~last.I.single)
@@ -416,6 +424,9 @@ DistribRel(t, dm, ev) ==
           /\ \A k \in DOMAIN ev.lines : parsed[k].ok /\ ~VEmpty(S(k)) /\ VSub(S(k), R)
           /\ dm.single => \A k \in DOMAIN ev.lines : ~S(k).inf /\ Cardinality(S(k).fin) = 1
           /\ (~dm.single /\ dm.n >= 1) => VSame(VUnion({S(k) : k \in DOMAIN ev.lines}), R)
+          \* --to / --at: "distribute down to objects of the given type": no object of that level is split
+          /\ (dm.to # "" /\ ~dm.single /\ fromlv.d <= tolv.d) =>
+                \A k \in DOMAIN ev.lines : \A p \in SeqSet(LObjs(t, tolv.d)) : VMeets(OCS(t, p), S(k)) => VSub(OCS(t, p), S(k))
           /\ (dm.to = "" /\ dm.n <= Cardinality(R.fin)) =>
                 \A j \in DOMAIN ev.lines : \A k \in DOMAIN ev.lines : j # k => ~VMeets(S(j), S(k))
 
